@@ -859,10 +859,15 @@ impl Indexable for ast::SimpleValue {
             ast::SimpleValue::Boolean(_) => Some(Type::Bit),
             ast::SimpleValue::Uninitialized(_) => Some(Type::Uninitialized),
             ast::SimpleValue::Bits(bits) => {
+                // an element that is itself several bits wide (`{ x{1-0}, 1, 0 }`) contributes all of them
+                let mut width = 0;
                 for value in bits.value_list()?.values() {
-                    value.index(ctx);
+                    width += match value.index(ctx) {
+                        Some(Type::Bits(element_width)) => element_width,
+                        _ => utils::binary_literal_width(&value).unwrap_or(1),
+                    };
                 }
-                Some(Type::Bits(bits.value_list()?.values().count()))
+                Some(Type::Bits(width))
             }
             ast::SimpleValue::List(list) => {
                 // index every element, not only the ones up to the first with a known type
@@ -1010,7 +1015,7 @@ mod utils {
     use crate::file_system::FileRange;
     use crate::symbol_map::typ::Type;
     use ecow::EcoString;
-    use syntax::ast;
+    use syntax::ast::{self, AstNode};
 
     pub(super) fn identifier(
         identifier: &ast::Identifier,
@@ -1035,6 +1040,13 @@ mod utils {
             width = width.checked_add(len.try_into().ok()?)?;
         }
         Some(width)
+    }
+
+    /// The number of digits of a value that is one binary literal (`0b10` is two bits wide).
+    pub(super) fn binary_literal_width(value: &ast::Value) -> Option<usize> {
+        let text = value.syntax().text().to_string();
+        let digits = text.trim().strip_prefix("0b")?;
+        (!digits.is_empty() && digits.bytes().all(|b| b == b'0' || b == b'1')).then_some(digits.len())
     }
 
     /// The type of `width` selected bits.
